@@ -73,13 +73,14 @@ Definition backoff_after (p : params) (b : Q) (os : list outcome) : Q := fold_le
 Fixpoint qpow (q : Q) (n : nat) : Q := match n with O => 1 | S m => q * qpow q m end.
 
 (* ------------------------------------------------------------------ (b) two-thread machine *)
-(* variant of stop(): faithful = {| v_swap := false; v_sticky := false |}
+(* variant of stop()/wake(): faithful = all false
    v_swap   : __shutdown is assigned before __stopping (proposed fix of the lost-cleanup race)
-   v_sticky : `if forever: self.__shutdown = True` instead of `self.__shutdown = forever` *)
-Record variant := { v_swap : bool; v_sticky : bool }.
-Definition faithful : variant := {| v_swap := false; v_sticky := false |}.
-Definition swapped : variant := {| v_swap := true; v_sticky := false |}.
-Definition repaired : variant := {| v_swap := true; v_sticky := true |}.
+   v_sticky : `if forever: self.__shutdown = True` instead of `self.__shutdown = forever`
+   v_wake1  : wake() reads __interrupt once into a local instead of twice *)
+Record variant := { v_swap : bool; v_sticky : bool; v_wake1 : bool }.
+Definition faithful : variant := {| v_swap := false; v_sticky := false; v_wake1 := false |}.
+Definition swapped : variant := {| v_swap := true; v_sticky := false; v_wake1 := false |}.
+Definition repaired : variant := {| v_swap := true; v_sticky := true; v_wake1 := true |}.
 
 (* loop thread: program counter over Runnable.run *)
 Inductive lpc :=
@@ -193,15 +194,19 @@ Definition lstep (p : params) (s : st) (o : outcome) (u : bool) : st :=
   | LF5 => set_lp (add_log s EDone) LDead
   end.
 
-(* order of the statements of stop() *)
-Definition first_stage (v : variant) : sstage := if v_swap v then SSd else SSg.
-(* the stage after st (None = the racy statements are finished); wake_skipped: wake() returned at its
-   `is None` test *)
-Definition next_stage (v : variant) (stg : sstage) (wake_skipped : bool) : option sstage :=
+(* order of the statements of stop(f, w) *)
+(* does stop(f, _) assign __shutdown at all? *)
+Definition has_sd (v : variant) (f : bool) : bool := negb (v_sticky v) || f.
+Definition first_stage (v : variant) (f : bool) : sstage := if v_swap v && has_sd v f then SSd else SSg.
+(* after wake(): the assignment of __shutdown if it comes last, else the racy statements are finished *)
+Definition after_wake (v : variant) (f : bool) : option sstage :=
+  if negb (v_swap v) && has_sd v f then Some SSd else None.
+(* the stage after stg (None = the racy statements are finished); wake_done: wake() has returned *)
+Definition next_stage (v : variant) (stg : sstage) (wake_done : bool) (f : bool) : option sstage :=
   match stg with
   | SSg => Some SWk1
-  | SWk1 => if wake_skipped then (if v_swap v then None else Some SSd) else Some SWk2
-  | SWk2 => if v_swap v then None else Some SSd
+  | SWk1 => if wake_done then after_wake v f else Some SWk2
+  | SWk2 => after_wake v f
   | SSd => if v_swap v then Some SSg else None
   end.
 
@@ -209,25 +214,26 @@ Definition next_stage (v : variant) (stg : sstage) (wake_skipped : bool) : optio
 Definition stop_tail (s : st) (f w : bool) : st :=
   set_cp s (if w && tset s then CJoinS (JStop f) else CIdle (RStopped f false)).
 
-Definition goto_stage (v : variant) (s : st) (stg : sstage) (skipped : bool) (f w : bool) : st :=
-  match next_stage v stg skipped with
+Definition goto_stage (v : variant) (s : st) (stg : sstage) (wake_done : bool) (f w : bool) : st :=
+  match next_stage v stg wake_done f with
   | Some n => set_cp s (CStopS n f w)
   | None => stop_tail s f w
   end.
 
-(* execute statement st of stop(f, w) *)
+(* execute statement stg of stop(f, w) *)
 Definition stop_stage (v : variant) (s : st) (stg : sstage) (f w : bool) : st :=
   match stg with
   | SSg => goto_stage v (set_sg s true) SSg false f w
   | SWk1 => match intr s with
             | None => goto_stage v s SWk1 true f w          (* "not running, wake ignored" *)
-            | Some _ => goto_stage v s SWk1 false f w
+            | Some _ => if v_wake1 v then goto_stage v (set_intr s (Some true)) SWk1 true f w
+                        else goto_stage v s SWk1 false f w
             end
   | SWk2 => match intr s with
             | None => set_cp s (CIdle (RStopRaised f))      (* None.set(): AttributeError leaves stop() *)
-            | Some _ => goto_stage v (set_intr s (Some true)) SWk2 false f w
+            | Some _ => goto_stage v (set_intr s (Some true)) SWk2 true f w
             end
-  | SSd => goto_stage v (set_sd s (if v_sticky v then sd s || f else f)) SSd false f w
+  | SSd => goto_stage v (set_sd s (if v_sticky v then true else f)) SSd false f w
   end.
 
 (* the caller begins a call (only when idle); the first racy statement is executed in the same step *)
@@ -236,10 +242,10 @@ Definition ccall (v : variant) (s : st) (op : cop) : st :=
   | CStart =>
     if sd s then set_cp s (CIdle RStartRefused)             (* RuntimeError("Service was stopped ...") *)
     else set_cp s (if tset s then CStartAlive1 else CStartSg)
-  | CStop f w => stop_stage v (mark_live s (f && pre_f4 (lp s))) (first_stage v) f w
+  | CStop f w => stop_stage v (mark_live s (f && pre_f4 (lp s))) (first_stage v f) f w
   | CWake => match intr s with
              | None => set_cp s (CIdle RWakeIgnored)
-             | Some _ => set_cp s CWake2
+             | Some _ => if v_wake1 v then set_cp (set_intr s (Some true)) (CIdle RWoke) else set_cp s CWake2
              end
   | CWait timed => set_cp s (if tset s then CJoinS (JWait timed) else CIdle (RWaited false))
   end.
@@ -354,8 +360,9 @@ Definition sx_ev (e : ev) : sx :=
 
 Definition un_variant (x : sx) : option variant :=
   match x with
-  | L [a; b] => match un_bool a, un_bool b with
-                | Some a, Some b => Some {| v_swap := a; v_sticky := b |} | _, _ => None end
+  | L [a; b; c] => match un_bool a, un_bool b, un_bool c with
+                   | Some a, Some b, Some c => Some {| v_swap := a; v_sticky := b; v_wake1 := c |}
+                   | _, _, _ => None end
   | _ => None
   end.
 
